@@ -152,6 +152,18 @@ def run(ctx):
                 cases.append(declcorr.ChainCase("str", [("call", (v,)), ("len", (a, b))]))
                 cases.append(declcorr.ChainCase("str", [("call", (v,)), ("len", (a, ...)), ("alphabet", ("ab",))]))
                 cases.append(declcorr.ChainCase("str", [("call", (v,)), ("contains", ("b",)), ("len", (..., b))]))
+    # long / wide arguments: a value with many letters outside the alphabet, long substrings, big length bounds, wide element lists
+    longv = "0123abcdefghijklmnopqrstuvwxyz42"
+    for ops in ([("call", (longv,)), ("alphabet", ("0123456789",))], [("call", (longv,)), ("alphabet", (longv[:12],))],
+                [("alphabet", ("0123456789",)), ("call", (longv,))], [("call", (longv,)), ("contains", ("z" * 20,))],
+                [("call", (longv,)), ("len", (len(longv) + 1,))], [("call", (longv,)), ("len", (..., len(longv) - 1))],
+                [("call", ("x" * 300,)), ("len", (300,)), ("alphabet", ("xy",))], [("call", ("x" * 300,)), ("regex", ("^y",))],
+                [("contains", ("q" * 50,)), ("len", (..., 49))], [("alphabet", ("ab",)), ("contains", ("abc" * 10,))]):
+        cases.append(declcorr.ChainCase("str", list(ops)))
+    els = [schema.int(i) for i in range(20)]
+    for ops in ([("call", (list(els),)), ("len", (19,))], [("call", (list(els),)), ("len", (21, ...))], [("call", (list(els) + [...],)), ("len", (19,))],
+                [("call", (list(els),)), ("len", (20,))], [("call", ([...] + list(els) + [...],)), ("len", (..., 19))]):
+        cases.append(declcorr.ChainCase("list", list(ops)))
     # every UUID family as a fixed value: v4, v1/v3/v5, and the non-RFC-4122 variants whose `.version` is None
     import uuid as _uuid
     for u in GC.U4 + GC.U_NOT4 + [_uuid.UUID(int=0), _uuid.UUID(int=2 ** 128 - 1), _uuid.UUID("00000000-0000-4000-0000-000000000000"),
